@@ -40,12 +40,12 @@ def all_sources(ctx, live=True):
     return srcs
 
 
-def make_replay(ctx, exe, module="TraceTopo"):
+def make_replay(ctx, exe, module="TraceTopo", env=None):
     def replay_fn(text):
         p = ctx.path("replay-%d.beh" % random.randrange(1 << 30))
         open(p, "w").write(text)
         t = p + ".ndjson"
-        ctx.record(exe, p, t)
+        ctx.record(exe, p, t, env=env)
         return ctx.validate(module, t, nshards=1)
     return replay_fn
 
@@ -116,9 +116,11 @@ def run(ctx, replay=None):
 
 
 def rebase_paths(ctx, text):
+    """a stored behaviour names files of the scratch directory of the run that found it: point them to this run's scratch directory"""
     import re
-    m = re.search(r"(/\S*?/hwloc-verif\.[^/]+)/corpus/", text)
-    if m:
+    for d in set(re.findall(r"(/\S*?/hwloc-verif\.[A-Za-z0-9_]+\.[A-Za-z0-9_]+)/", text)):
+        if d != ctx.dir:
+            text = text.replace(d, ctx.dir)
+    if ctx.dir + "/corpus/" in text:
         corpus.extract_snapshots(ctx.path("corpus"))
-        text = text.replace(m.group(1), ctx.dir)
     return text
